@@ -48,6 +48,10 @@ func Path(v ssa.Value) string {
 		if isGroupField(x.X.Type(), x.Field) {
 			return Path(FieldOwner(x)) // the grouping struct itself reads as its owner
 		}
+		if o := FieldOwner(x); o != x.X && shadowedIn(o.Type(), x.X.Type(), x.Field) {
+			// a field of an embedded component that the owner shadows with a field of its own: a different variable
+			return Path(o) + "." + rawTypeName(x.X.Type()) + "." + FieldName(x.X.Type(), x.Field)
+		}
 		return Path(FieldOwner(x)) + "." + FieldName(x.X.Type(), x.Field)
 	case *ssa.Field:
 		if isGroupField(x.X.Type(), x.Field) {
@@ -242,7 +246,7 @@ func isGroupField(t types.Type, i int) bool {
 		return false
 	}
 	_, mapped := nestedOwner[rawTypeName(st.Field(i).Type())]
-	return mapped
+	return mapped || sharedGroup[rawTypeName(st.Field(i).Type())]
 }
 
 // Resolve looks through wrappers and single-store local loads.
